@@ -149,6 +149,25 @@ def run_case(ck, desc):
             # and rounding-level residuals are not defined; such tables are not diffusion problems
             ck.count("tables_skipped_nonpositive_diffusivity")
             return False, {"skipped": "non-positive diffusivity in the table"}
+    g_seed = int(desc.get("grid", {}).get("seed", 0))
+    if g_seed % 6 == 2 and len(time) >= 4 and not desc.get("alpha_var"):
+        # Ctrl-C while the time loop is running (fault injected from the diffusivity hook, as a plain raise or
+        # as a real SIGINT): if simulate() hands a result back all the same, every level of THAT result is
+        # the update of the one before it; the object is then simulated again, uninterrupted, and judged as usual
+        at = 2 + g_seed % max(1, len(time) - 3)
+        outcome, _, n_calls = sim.simulate_interrupted(res, time, sched, at, how=("raise", "sigint")[(g_seed // 6) % 2])
+        ck.count(f"interrupted_runs.{outcome}")
+        if n_calls < at:
+            ck.count("interrupted_runs_hook_not_reached")
+        elif outcome == "returned" and hasattr(res, "pseudopressure"):
+            t_st, pp_st = np.asarray(res.time, dtype=float), np.asarray(res.pseudopressure, dtype=float)
+            m_i_, m_f_ = sim.frac_face_values(desc, res, fluid, time, sched)
+            if pp_st.ndim != 2 or len(t_st) != len(pp_st) or not np.all(np.isfinite(pp_st)):
+                ck.violation("result-after-an-interrupt-is-a-run", {"stamps": int(len(t_st)), "levels": int(len(pp_st)), "finite": bool(np.all(np.isfinite(pp_st)))}, desc)
+            elif len(t_st) >= 2:
+                r_ = sim.step_residuals(res, desc["cls"], t_st, pp_st, m_i_, np.asarray(m_f_, dtype=float)[: len(t_st)])
+                if not ck.margin("levels handed back after an interrupt: row residual / rounding tolerance", r_["worst_ratio"], 1.0):
+                    ck.violation("backward-euler-residual", {"after": "KeyboardInterrupt inside the time loop, simulate() returned normally", "worst_ratio": r_["worst_ratio"], "at_step_row": r_["worst_at"], "levels_handed_back": int(len(t_st)), "interrupted_in_step": int(at)}, desc)
     sim.SIM_EVENTS.clear()
     sim.reset_solver()
     sim.simulate(res, time, sched)
